@@ -345,6 +345,251 @@ def s3(prog, rep):
     rep.check(ok, "S3-states", "returns -1 exactly in the error state", f.loc, "%s" % [show(r) for r in rets], function=f.name, construct="result")
 
 
+SI_POWER = {"k": 1, "M": 2, "G": 3, "T": 4, "P": 5, "E": 6}
+
+
+def _spec_step(q, ch):
+    """The documented grammar /[0-9]+ ?[kMGTPE]?B?/ as a deterministic automaton over characters; a state is (phase, power)."""
+    ph, k = q
+    c = chr(ch) if 0 < ch < 128 else None
+    digit = c is not None and c in "0123456789"
+    if ph == "start":
+        return ("digits", 0) if digit else ("err", 0)
+    if ph == "digits":
+        if digit:
+            return ("digits", 0)
+        if c == " ":
+            return ("space", 0)
+    if ph in ("digits", "space"):
+        if c in SI_POWER:
+            return ("prefix", SI_POWER[c])
+    if ph in ("digits", "space", "prefix"):
+        if c == "B":
+            return ("B", k)
+    return ("err", 0)
+
+
+def s3_grammar(prog, rep):
+    """humansize_parse accepts exactly the documented language and applies exactly the prefix's power of 1000: the function's state
+    machine is extracted from its control-flow graph by evaluating it over known values (sa/finite.py) -- one run per reachable
+    (state, multiplier) configuration and input character, overflow guards taken as not firing -- and compared with the grammar's
+    automaton by exploring the product of the two from the start: at every reachable pair, for every byte value, both accept or
+    both reject at end of string, an accepted string leaves multiplier == 1000^k for the prefix seen, and the loop goes on
+    exactly while characters remain and no error was found.  Exhaustive over strings (finite product), independent of how the
+    states are numbered."""
+    from .. import finite
+    f = prog.func("util/humansize.c", "humansize_parse")
+    if f is None:
+        raise cdb.AnalysisBroken("anchor missing: humansize_parse")
+    if not rep.names(f, "state", "multiplier", "s", "size"):
+        return
+    types = f.unit.types
+    tracked = {}
+    ids = {}
+    for e in f.all_elems():
+        if e.cls == "DeclStmt":
+            for d in e.decls or []:
+                if isinstance(d, dict) and d.get("kind") == "local":
+                    t = types.get(d.get("ty")) or {}
+                    if t.get("kind") in ("int", "enum", "bool") and t.get("size"):
+                        tracked[("v", d["name"], d["id"])] = (bool(t.get("signed", True)), 8 * t["size"])
+                        ids[d["name"]] = ("v", d["name"], d["id"])
+    sp = ("v", f.params[0]["name"], f.params[0]["id"])
+    CH = ("*", sp)
+    cht = types.get((types.get(f.params[0]["ty"]) or {}).get("pointee")) or {}
+    ch_signed = bool(cht.get("signed", True))
+    tracked[CH] = (ch_signed, 8)
+    if "state" not in ids or "multiplier" not in ids:
+        raise cdb.AnalysisBroken("humansize_parse: state / multiplier are no longer integer locals")
+    szterm = ("*", ("v", f.params[1]["name"], f.params[1]["id"]))
+    steps = [e for e in f.all_elems() if e.is_incdec and norm(e.kid(0)) == sp]
+    if len(steps) != 1 or not steps[0].op.endswith("++"):
+        raise cdb.AnalysisBroken("humansize_parse no longer advances its cursor in exactly one place: the machine cannot be extracted")
+    step = steps[0]
+
+    def choose(cond, env):
+        # a test of the accumulated value is an overflow guard: the grammar is what is accepted when none fires
+        return False if any(t == szterm for t in subterms(norm(cond))) else None
+    W = finite.Walker(f, tracked, lambda e: e is step, choose)
+
+    def cfg_of(env):
+        return tuple(sorted((k[1], v) for k, v in env.items() if k != CH and k[0] == "v"))
+
+    def run_from(block, index, env, ch):
+        env = dict(env)
+        env[CH] = ch
+        try:
+            return W.run(block, index, env)
+        except finite.Budget:
+            raise cdb.AnalysisBroken("humansize_parse: the evaluation of one step did not finish within its budget")
+    alphabet = [c for c in (range(-128, 128) if ch_signed else range(0, 256)) if c != 0]
+    bad = []
+    npairs = 0
+
+    def note(msg):
+        if len(bad) < 4:
+            bad.append(msg)
+
+    def after_step(env, word):
+        """What the function does after the cursor has been advanced: with the next character NUL, and with it not NUL."""
+        e2 = {k: v for k, v in env.items()}
+        i = step.block.elems.index(step) + 1
+        return e2, i
+    # first character (possibly the terminator: the empty string)
+    start = {k: None for k in tracked}
+    outs0 = run_from(f.entry, 0, start, 0)
+    for o in outs0:
+        if o[0] == "stop":
+            e2, i = after_step(o[2], "")
+            for o2 in run_from(step.block.id, i, e2, 0):
+                if not (o2[0] == "ret" and o2[1] == -1):
+                    note("the empty string is not rejected")
+        elif not (o[0] == "ret" and o[1] == -1):
+            note("the empty string is not rejected")
+    seen = set()
+    work = []
+    for c in alphabet:
+        for o in run_from(f.entry, 0, start, c):
+            if o[0] != "stop":
+                note("a return is reached before the first character %r was consumed" % chr(c & 255))
+                continue
+            work.append((o[2], _spec_step(("start", 0), c), chr(c & 255)))
+    err = -1
+    while work and not (len(bad) >= 4):
+        env, q, word = work.pop(0)
+        key = (cfg_of(env), q)
+        if key in seen:
+            continue
+        seen.add(key)
+        npairs += 1
+        if npairs > 4000:
+            note("more than 4000 (configuration, grammar state) pairs are reachable: the machine is not the finite one documented (after %r)" % word)
+            break
+        e2, i = after_step(env, word)
+        # end of string here
+        for o in run_from(step.block.id, i, e2, 0):
+            if o[0] != "ret":
+                note("after %r the terminator does not end the loop" % word)
+                continue
+            want = 0 if q[0] != "err" else -1
+            if o[1] != want:
+                note("%r is %s but the grammar %s it" % (word, "accepted" if o[1] == 0 else "rejected", "accepts" if want == 0 else "rejects"))
+            elif want == 0 and o[2].get(ids["multiplier"]) != 1000 ** q[1]:
+                note("%r leaves multiplier == %s, expected 1000^%d" % (word, o[2].get(ids["multiplier"]), q[1]))
+        # one more character
+        for c in alphabet:
+            q2 = _spec_step(q, c)
+            for o in run_from(step.block.id, i, e2, c):
+                if o[0] == "ret":
+                    # the loop gave up before the end of the string: fine only if nothing that follows could be accepted
+                    if o[1] != -1 or q[0] != "err":
+                        note("after %r the loop stops although %r follows (result %s)" % (word, chr(c & 255), o[1]))
+                    continue
+                work.append((o[2], q2, word + chr(c & 255)))
+    rep.check(not bad, "S3-grammar", "humansize_parse accepts exactly /[0-9]+ ?[kMGTPE]?B?/ and multiplies by 1000^k", f.loc,
+              "; ".join(bad) if bad else "%d reachable (configuration, grammar state) pairs x %d byte values explored" % (npairs, len(alphabet)),
+              function=f.name, construct="grammar")
+    if not bad and npairs < 5:
+        raise cdb.AnalysisBroken("S3-grammar explored only %d pairs: the extraction has lost the machine" % npairs)
+
+
+def _load_inst():
+    """CFG facts of fixtures/parsenum_inst.c (generic instantiations of the macros) against the repository's current parsenum.h."""
+    import json, os, subprocess
+    src = os.path.join(cdb.VERIF, "fixtures", "parsenum_inst.c")
+    out = os.path.join(cdb.workdir(), "fixture-parsenum.json")
+    hdr = os.path.join(cdb.REPO, "util", "parsenum.h")
+    if not os.path.exists(hdr):
+        raise cdb.AnalysisBroken("util/parsenum.h is gone")
+    r = subprocess.run([cdb.CFGX, src, "-o", out, "--", "-std=c99", "-D_POSIX_C_SOURCE=200809L", "-I" + os.path.join(cdb.REPO, "util")],
+                       capture_output=True, text=True, cwd=os.path.dirname(src))
+    if r.returncode != 0 or not os.path.exists(out):
+        raise cdb.AnalysisBroken("the generic instantiations of PARSENUM no longer compile against util/parsenum.h: %s" % (r.stderr or r.stdout)[-300:])
+    with open(out) as fh:
+        return ir.Unit("fixtures/parsenum_inst.c", json.load(fh), os.path.dirname(src))
+
+
+def s2_macro_inst(rep):
+    """The PARSENUM macros themselves, on instantiations whose bounds are not literals (fixtures/parsenum_inst.c), so that no arm
+    is pruned: errno is cleared before any conversion; the conversion is chosen by the target's kind (float: halving 1 leaves a
+    fraction; signed: -1 stays negative; else unsigned, with the target's maximum as type limit); no later store replaces a
+    verdict already in errno (a store after the conversion happens only where errno == 0); a negative upper bound for an unsigned
+    target is out of range, not converted to a huge one; and the macro's value is errno != 0."""
+    u = _load_inst()
+    Z = ("c", 0)
+    kinds = {"inst_unsigned_sbounds": "unsigned", "inst_unsigned_ubounds": "unsigned", "inst_signed": "signed", "inst_float": "float",
+             "inst_unsigned_nobounds": "unsigned", "inst_float_nobounds": "float", "inst_plain4": "unsigned", "inst_plain2": "unsigned"}
+    conv_of = {"unsigned": "parsenum_unsigned", "signed": "parsenum_signed", "float": "parsenum_float"}
+    for name, kind in kinds.items():
+        f = u.func(name)
+        if f is None:
+            raise cdb.AnalysisBroken("fixture function %s missing" % name)
+        x = ("*", ("v", f.params[0]["name"], f.params[0]["id"]))
+        convs = [c for c in f.calls(tuple(conv_of.values())) if c.block.id in f.reachable()]
+        clears = [e for e in f.all_elems() if e.is_assign and e.op == "=" and norm(e.kid(0)) == ERRNO and norm(e.kid(1)) == Z]
+        ok = len(clears) == 1 and bool(convs) and all(f.dominates(clears[0], c) for c in convs) and not f.edge_conds(clears[0])
+        rep.check(ok, "S2-macro", "%s: errno is cleared, unconditionally, before any conversion" % name, f.loc, "", function=name, construct="errno-clear")
+        # dispatch: which conversion is reached under which outcome of the two type probes
+        reach = {}
+        for c in convs:
+            at = set()
+            for cond, truth in f.edge_conds(c):
+                n = norm(cond)
+                at.add((show(strip_ids(n)), truth))
+            reach[c.callee] = at
+        xs = show(strip_ids(x))
+        fl = ("(((%s = 1) , (%s /= 2)) > 0)" % (xs, xs))
+        sg = ("((%s = -1) <= 0)" % xs)
+        sg2 = ("((%s = -1) > 0)" % xs)
+        want = {"parsenum_float": {(fl, True)}, "parsenum_signed": {(fl, False), (sg, True)}, "parsenum_unsigned": {(fl, False), (sg, False)}}
+        okd = True
+        why = []
+        for cal, at in reach.items():
+            # the second probe may be spelled either way round
+            probes = set((sg, not a[1]) if a[0] == sg2 else a for a in at if a[0] in (fl, sg, sg2))
+            if probes != want[cal]:
+                okd = False
+                why.append("%s reached under %s" % (cal, sorted(probes)))
+        # the conversion matching a target of this kind must be among those present (the others are dead for this target type
+        # only at run time: the macro cannot know the type, every arm is in the graph unless its arguments rule it out)
+        okd = okd and conv_of[kind] in reach
+        rep.check(okd, "S2-macro", "%s: the conversion is selected by the two type probes (1/2 > 0: float; -1 <= 0: signed; else unsigned)" % name, f.loc,
+                  "; ".join(why) or "%s" % sorted(reach), function=name, construct="dispatch")
+        # unsigned: the type limit handed over is the target's all-ones value
+        for c in convs:
+            if c.callee == "parsenum_unsigned":
+                rep.check(norm(c.arg(3)) == x, "S2-macro", "%s: parsenum_unsigned is given *x (set to -1) as the type limit" % name, c.where,
+                          "type limit %s" % show(norm(c.arg(3))), function=name, construct="typemax")
+        # stores to errno after the conversions
+        late = [e for e in f.all_elems() if e.is_assign and norm(e.kid(0)) == ERRNO and e not in clears]
+        for e in late:
+            g = set()
+            for cond, truth in f.edge_conds(e):
+                for op, L, R, _, _ in cond_atoms(cond, truth):
+                    g.add((op, strip_ids(L), R))
+            okl = ("==", strip_ids(ERRNO), Z) in g and norm(e.kid(1)) == ("c", ERANGE)
+            rep.check(okl, "S2-macro", "%s: a store to errno after the conversion happens only where errno == 0, and stores ERANGE" % name, e.where,
+                      "guards %s" % sorted(map(str, g)), function=name, construct="late-store")
+        if name in ("inst_unsigned_sbounds", "inst_plain4"):
+            mx = ("v", f.params[3]["name"])
+            neg = [e for e in late if any(op == "<" and L == mx and R == Z for cond, truth in f.edge_conds(e) for op, L, R, _, _ in [(o, strip_ids(l), r) + (None, None) for o, l, r, _, _ in cond_atoms(cond, truth)])]
+            rep.check(len(neg) == 1, "S2-macro", "%s: a negative upper bound for an unsigned target is out of range (ERANGE), not converted" % name, f.loc,
+                      "%d such stores" % len(neg), function=name, construct="negative-max")
+            for c in convs:
+                if c.callee == "parsenum_unsigned":
+                    mn = ("v", f.params[2]["name"])
+                    a1 = strip_ids(norm(c.arg(1)))
+                    okm = a1 == ("?:", ("<=", mn, Z), Z, mn) or a1 == ("?:", ("<", mn, Z), Z, mn) or a1 == ("?:", (">", mn, Z), mn, Z) or a1 == ("?:", (">=", mn, Z), mn, Z)
+                    rep.check(okm, "S2-macro", "%s: a negative lower bound for an unsigned target is clamped to 0" % name, c.where, show(a1), function=name, construct="min-clamp")
+        # the macro's value
+        rets = list(f.returns())
+        v = norm(rets[0].kid(0)) if len(rets) == 1 else None
+        while v is not None and v[0] == ",":
+            v = v[-1]
+        rep.check(v is not None and strip_ids(v) == ("!=", strip_ids(ERRNO), Z), "S2-macro", "%s: the macro's value is errno != 0" % name, f.loc,
+                  show(v) if v else "", function=name, construct="value")
+
+
 def run(tier):
     rep = report.Report("C16", tier,
         "Decided (necessary conditions): every unsigned text-to-integer conversion inspects the sign (S1); the three parsenum siblings "
@@ -357,7 +602,9 @@ def run(tier):
     rep.add_stats(prog)
     s1(prog, rep)
     s2(prog, rep)
+    s2_macro_inst(rep)
     s3(prog, rep)
+    s3_grammar(prog, rep)
     s4_format(prog, rep)
     rep.require_min("S1-sign", 1)
     rep.require_min("S2-sibling", 12)
